@@ -631,8 +631,21 @@ _SYSREAL = (" sys-real: whole histories (apply, re-apply with prune, destroy; de
             "unregistered type under SkipInvalid, a Deployment that never becomes Current) run with the library's REAL DefaultStatusWatcher — dynamic informers "
             "over the fake cluster's LIST and WATCH — instead of the scripted watcher; the scripts of the input only describe what kstatus computes. Same run model; "
             "agreement up to `realProj` (Pending wait events, the order inside a block of wait events and the event index of requests are the scheduler's); the "
-            "C13 and C12 predicates judge the implementation's stream as it is: grammar, one result per object, Timeout only after the configured time, channel "
+            "C13, C12, C05, C04, C02 and C01 predicates judge the implementation's behaviour as it is: grammar, one result per object, Timeout only after the configured time, channel "
             "closed, no request and no open WATCH stream after it.")
-for _p in ("C12", "C13"):
+for _p in ("C12", "C13", "C05", "C04"):
     PROPS[_p]["domains"].append("sys-real")
     PROPS[_p]["rule"] += _SYSREAL
+
+PROPS["C16"]["domains"].append("fatalseq")
+PROPS["C16"]["rule"] += (" fatalseq: every sequence of ≤ 3 (and random longer) errors — bare or wrapped context errors, as a handler gets when its own informer "
+                         "was stopped under it, and real failures — handed to the reporter's handleFatalError: the first real failure is reported by exactly one "
+                         "error event and stops the reporter, context errors are never reported and do not use up that one report.")
+
+_PRECANCEL = (" pre-cancel: dry-runs (client and server; the library then uses its own BlindStatusWatcher) started under an ALREADY cancelled context, each history "
+              "played 5 (thorough: 40) times: the stream is the un-cancelled run cut after the Finished event of one of its tasks plus the context error, or nothing "
+              "was started, or the complete run (how often the runner's select takes a task result before the cancellation is Go's choice); the channel closes, "
+              "nothing is changed, C13 / C12 / C10 hold on the stream as it is.")
+for _p in ("C13", "C12"):
+    PROPS[_p]["domains"].append("pre-cancel")
+    PROPS[_p]["rule"] += _PRECANCEL
